@@ -882,6 +882,9 @@ func execPhase(base *world.World, tag string, phase int, steps []seqStep, storeK
 				if resp.StatusCode != 200 {
 					body = nil
 				}
+				if resp.StatusCode >= 500 {
+					ev.Failed = true // the service said that it could not answer (which is not "there is no checkpoint")
+				}
 				cb, cerr := cl.GetLatestCheckpoint(ctx, id)
 				switch {
 				case cerr == nil && string(cb) == string(body) && resp.StatusCode == 200:
